@@ -94,6 +94,70 @@ func ErrorGrid() []GridCase {
 		}},
 	}
 
+	// errors raised at level 2 (and 1) inside a metamethod: the position is the
+	// line of the operation that triggered it, which stands alone on its line
+	// after a call on an earlier line
+	// The operand is a local, an upvalue or a table field (they are fetched by
+	// different instructions); the result is stored or returned.
+	mmObj := func(ev string, level int64) Expr {
+		return C(N("setmetatable"), &Table{}, &Table{Items: []TItem{{NameKey: ev, Val: &Func{IsVar: true, Body: []Stmt{
+			&CallStmt{Call: C(N("error"), S("in-"+ev), I(level))},
+		}}}}})
+	}
+	mmSite := func(ev string, level int64, kind string, op func(mm func() Expr) Stmt) site {
+		return site{fmt.Sprintf("metamethod-%s-level%d-%s", ev, level, kind), func() []Stmt {
+			switch kind {
+			case "upvalue":
+				return []Stmt{
+					&Local{Names: []string{"MM"}, Exprs: []Expr{mmObj(ev, level)}},
+					&LocalFunc{Name: "opf", F: &Func{Body: []Stmt{
+						&Assign{Targets: []Expr{N("before")}, Exprs: []Expr{C(N("select"), I(2), C(N("tick"), S("kept")))}},
+						op(func() Expr { return N("MM") }),
+					}}},
+					&CallStmt{Call: C(N("opf"))},
+				}
+			case "field":
+				return []Stmt{
+					&Assign{Targets: []Expr{Field(N("state"), "mm")}, Exprs: []Expr{mmObj(ev, level)}},
+					&Assign{Targets: []Expr{Field(N("state"), "z")}, Exprs: []Expr{C(N("tick"))}},
+					op(func() Expr { return Field(N("state"), "mm") }),
+				}
+			}
+			return []Stmt{
+				&Local{Names: []string{"MM"}, Exprs: []Expr{mmObj(ev, level)}},
+				&CallStmt{Call: C(N("tick"))},
+				op(func() Expr { return N("MM") }),
+			}
+		}}
+	}
+	lr := func(e Expr) Stmt { return &Local{Names: []string{"r"}, Exprs: []Expr{e}} }
+	ret := func(e Expr) Stmt { return &Return{Exprs: []Expr{e}} }
+	for _, level := range []int64{2, 1} {
+		for _, kind := range []string{"local", "upvalue", "field"} {
+			st := lr
+			if kind == "upvalue" {
+				st = ret
+			}
+			sites = append(sites,
+				mmSite("__index", level, kind, func(mm func() Expr) Stmt { return st(Field(mm(), "k")) }),
+				mmSite("__newindex", level, kind, func(mm func() Expr) Stmt {
+					return &Assign{Targets: []Expr{Field(mm(), "k")}, Exprs: []Expr{I(1)}}
+				}),
+				mmSite("__len", level, kind, func(mm func() Expr) Stmt { return st(U("#", mm())) }),
+				mmSite("__unm", level, kind, func(mm func() Expr) Stmt { return st(U("-", mm())) }),
+				mmSite("__add", level, kind, func(mm func() Expr) Stmt { return st(B("+", mm(), I(1))) }),
+				mmSite("__concat", level, kind, func(mm func() Expr) Stmt { return st(B("..", S("a"), mm())) }),
+				mmSite("__lt", level, kind, func(mm func() Expr) Stmt { return st(B("<", mm(), mm())) }),
+				mmSite("__le", level, kind, func(mm func() Expr) Stmt { return st(B("<=", I(1), mm())) }),
+				mmSite("__eq", level, kind, func(mm func() Expr) Stmt {
+					return st(B("==", mm(), C(N("setmetatable"), &Table{}, C(N("getmetatable"), mm()))))
+				}),
+				mmSite("__band", level, kind, func(mm func() Expr) Stmt { return st(B("&", mm(), I(1))) }),
+				mmSite("__call", level, kind, func(mm func() Expr) Stmt { return &CallStmt{Call: C(mm(), I(1))} }),
+			)
+		}
+	}
+
 	// depth: how the site is reached from the protected function
 	type depth struct {
 		name string
